@@ -50,6 +50,10 @@ func c14Inputs() []c14Input {
 	// merges with shared argument slices: values differ, pointers differ, nested, sleep/lock differ
 	add("merge-values", []byte("panic: x\n\n"+g(1, "running", "main.main", "", "/a/m.go", 1)+g(2, "select", "main.worker", "0x1, {0x2, 0x3}", "/a/w.go", 10)+g(3, "select", "main.worker", "0x1, {0x2, 0x3}", "/a/w.go", 10)+g(4, "select", "main.worker", "0x5, {0x2, 0x7}", "/a/w.go", 10)+"exit status 2\n"))
 	add("merge-pointers", []byte(g(1, "running", "main.main", "0xc000012340", "/a/m.go", 1)+g(2, "chan receive, 3 minutes", "main.f", "0xc000012340, 0xc000045678", "/a/w.go", 10)+g(3, "chan receive, 9 minutes, locked to thread", "main.f", "0xc0000789a0, 0xc000045678", "/a/w.go", 10)+g(4, "chan receive", "main.f", "0xc000012340, 0xc0000789a0", "/a/w.go", 10)))
+	// identical frames and arguments, different wait time / lock flag: the merge changes nothing but the range
+	add("merge-sleep-lock", []byte(g(1, "running", "main.main", "", "/a/m.go", 1)+g(7, "select, 2 minutes", "main.worker", "0x1, 0x2", "/a/w.go", 10)+g(8, "select, 9 minutes, locked to thread", "main.worker", "0x1, 0x2", "/a/w.go", 10)+g(9, "select", "main.worker", "0x1, 0x2", "/a/w.go", 10)))
+	// vendored frames and creators
+	add("vendored", []byte(g(1, "running", "github.com/foo/bar/vendor/github.com/baz/qux.Do", "0x1", "/gp/src/github.com/foo/bar/vendor/github.com/baz/qux/q.go", 5)+strings.TrimSuffix(g(2, "select", "github.com/foo/bar/vendor/github.com/baz/qux.Wait", "0x2", "/gp/src/github.com/foo/bar/vendor/github.com/baz/qux/q.go", 9), "\n")+"created by github.com/foo/bar/vendor/github.com/baz/qux.Start in goroutine 1\n\t/gp/src/github.com/foo/bar/vendor/github.com/baz/qux/q.go:3 +0x1\n\n"))
 	add("generated-1", append(append([]byte("panic: boom\n\n"), gen.GenDump(fixedChooser{"goroutines": 2, "g0.stack-shape": 1, "g0.creator": 2, "g0.f0.argshape": 9, "g1.f0.argshape": 9, "g2.f0.argshape": 9, "g1.f0.leafvalues": 3, "g2.minutes": 2}, env).Bytes()...), "exit status 2\n"...))
 	add("generated-2", gen.GenDump(fixedChooser{"goroutines": 3, "g0.stack-shape": 4, "g1.stack-shape": 6, "g2.creator": 1, "g3.creator": 1, "g4.locked": 1, "g3.f0.sym": 17, "g4.f0.sym": 17}, env).Bytes())
 	rc, _ := gen.GenRace(fixedChooser{"op0.args": 1, "op1.args": 1, "sec0.args": 1})
@@ -58,6 +62,13 @@ func c14Inputs() []c14Input {
 	add("race-2", rc2.Bytes())
 	if c14FSRoot != "" {
 		R := c14FSRoot
+		// source analysis on: typed renderings plus an elided argument list (the renderer
+		// appends "..." to the typed list)
+		_ = os.MkdirAll(R+"/aug", 0o755)
+		_ = os.WriteFile(R+"/aug/go.mod", []byte("module example.com/aug\n"), 0o644)
+		_ = os.WriteFile(R+"/aug/main.go", []byte("package main\n\nfunc many(a, b, c, d, e, f, g, h, i, j, k, l int) {\n\tpanic(a)\n}\n\nfunc main() {\n\tmany(1, 2, 3, 4, 5, 6, 7, 8, 9, 10, 11, 12)\n}\n"), 0o644)
+		out = append(out, c14Input{name: "augmented-elided", text: []byte(g(1, "running", "main.many", "0x1, 0x2, 0x3, 0x4, 0x5, 0x6, 0x7, 0x8, 0x9, 0xa, ...", R+"/aug/main.go", 4) + g(2, "select", "main.many", "0x1, 0x2, 0x3, 0x4, 0x5, 0x6, 0x7, 0x8, 0x9, 0xb, ...", R+"/aug/main.go", 4)),
+			mkOpts: func() *Opts { return &Opts{NameArguments: true, GuessPaths: true, AnalyzeSources: true} }})
 		// path guessing with two GOPATHs; the files are found under the second one and under a module
 		out = append(out, c14Input{name: "fs-two-gopaths", text: []byte(g(1, "running", "example.com/b.B", "0x1", "/ci/gp/src/example.com/b/b.go", 3) + g(2, "select", "example.com/m.X", "0x1", R+"/m/x.go", 10) + g(3, "select", "example.com/a.A", "0x2", "/ci/gp1/src/example.com/a/a.go", 4) + g(4, "select", "fmt.Println", "", "/ci/go/src/fmt/print.go", 5)),
 			mkOpts: func() *Opts {
